@@ -33,7 +33,7 @@ ASSUMPTIONS = [
     "the root cgroup itself is never a kill target; prekill hooks are absent (C07)",
     "with recursive=true the configured patterns do not resolve to a cgroup together with one of its ancestors "
     "(such a cgroup is a candidate twice and the trace cannot tell the two attempts apart)",
-    "kernelkill: the fresh read of cgroup.events equals the tick's cached value, except in the stale stream (C03, C17): there a childless candidate loses all its processes between the tick's sample and the kill (its cgroup.procs / cgroup.events / pids.current are rewritten at the first kill-accounting xattr aimed at it), the model is not compared and the property clauses decide on the trace: such a victim signalled nobody, is no success, and the next-best candidate has to be tried",
+    "kernelkill reads cgroup.events afresh before it writes cgroup.kill: the model takes that answer from the trace (Env.events), like the contents of every cgroup.procs read; in the stale stream (C03, C17) a childless candidate loses all its processes between the tick's sample and the kill (its cgroup.procs / cgroup.events / pids.current are rewritten at the first kill-accounting xattr aimed at it): the fresh read then says populated 0, the attempt signals nobody and is no success (C03.emptied_victim_is_no_success), the next-best candidate is tried",
 ]
 TRUSTED = ["harness/kill_interpose.h (libc interposition: kill, setxattr, openat, write, syscall, nanosleep, sd_bus_*)",
            "ext4 xattrs and readdir order of the scratch directory stand in for cgroupfs"]
